@@ -8,6 +8,10 @@ func init() {
 	verifRegister("VerifC09", VerifC09)
 }
 
+// c09Copy: every call gets an extension list of its own (the list may hold the same extension twice; what a call
+// does to the slice it is handed must not reach the other call through the harness)
+func c09Copy(exts []string) []string { return append([]string{}, exts...) }
+
 func c09Itoa(n int) string {
 	if n == 0 {
 		return "0"
@@ -51,9 +55,9 @@ func VerifC09() {
 	verifContext("C09.dryrun")
 	switch route {
 	case 0:
-		err = OutputFromMarkdown(w, &verifReader{lines: rows}, WithDryRun(), WithFileExtensions(exts))
+		err = OutputFromMarkdown(w, &verifReader{lines: rows}, WithDryRun(), WithFileExtensions(c09Copy(exts)))
 	case 1:
-		err = MkdirFromMarkdown(&verifReader{lines: rows}, WithDryRun(), WithFileExtensions(exts), WithTargetDir(vfsTarget()))
+		err = MkdirFromMarkdown(&verifReader{lines: rows}, WithDryRun(), WithFileExtensions(c09Copy(exts)), WithTargetDir(vfsTarget()))
 	case 2:
 		var real []*Node
 		for i := range nodes {
@@ -63,14 +67,14 @@ func VerifC09() {
 				real = append(real, real[nodes[i].parent].Add(nodes[i].name))
 			}
 		}
-		err = MkdirFromRoot(real[0], WithDryRun(), WithFileExtensions(exts), WithTargetDir(vfsTarget()))
+		err = MkdirFromRoot(real[0], WithDryRun(), WithFileExtensions(c09Copy(exts)), WithTargetDir(vfsTarget()))
 	}
 	verifAssert(err == nil, "C09.nil")
 	verifAssert(vfsTouched() == 0, "C09.pure")
 	report := w.out
 	// the real run, same tree, same extensions, same (untouched) file-system state
 	verifContext("C09.real")
-	e2 := MkdirFromMarkdown(&verifReader{lines: rows}, WithFileExtensions(exts), WithTargetDir(vfsTarget()))
+	e2 := MkdirFromMarkdown(&verifReader{lines: rows}, WithFileExtensions(c09Copy(exts)), WithTargetDir(vfsTarget()))
 	verifAssert(e2 == nil, "C09.real.nil")
 	want := ""
 	for _, r := range roots {
